@@ -1,52 +1,188 @@
-(* C08 — Outputs always range over exactly the current arms, one result per context.
-
-   FULL STATEMENT (every policy combination): at every state reachable by any history of add_arm,
-   remove_arm, fit, partial_fit, warm_start and queries, predict returns a member of the current arm list,
-   predict_expectations returns a dictionary whose keys are exactly the current arms in arm-list order,
-   a removed arm never appears again, an added arm is present immediately, and m > 1 rows give a list
-   of m results, one row / no contexts a single result.
-
-   PROVED HERE:
-   * the arm-list clauses (added arm present immediately and last, removed arm gone, rejected calls
-     keep the list) for EVERY policy combination of the model;
-   * the key / membership / shape clauses for every bandit with a context-free learning policy and no
-     neighbourhood policy (theorems named ..._partial): for every history, every generator that answers
-     with the requested number of values, every label type with decidable equality.
-   MISSING in the partial theorems: the same invariant for linear, Radius/KNearest/LSH, Clusters and
-   TreeBandit states (for those the clause is covered by the correspondence run only). *)
-From Coq Require Import List ZArith Bool QArith Qcanon.
-From MW Require Import Num Assoc Rng CF CFInv CFClean Mab FacadeCF FacadeArms QcInst.
+(*  C08 — Outputs always range over exactly the current arms, one result per context.
+   
+    FULL STATEMENT (every policy combination): at every state reachable by any history of add_arm,
+    remove_arm, fit, partial_fit, warm_start and queries, predict returns a member of the current arm list,
+    predict_expectations returns a dictionary whose keys are exactly the current arms in arm-list order,
+    a removed arm never appears again, an added arm is present immediately, and m > 1 rows give a list
+    of m results, one row / no contexts a single result.
+   
+    PROVED, for EVERY policy combination of the model (context-free, LinGreedy/LinUCB/LinTS, Radius/KNearest/
+    LSHNearest over either kind of learning policy, Clusters, TreeBandit), every label type with decidable
+    equality, every generator that answers with the requested number of values (and, for the two index draws
+    rng.choice(n) / rng.integers(0, n), with an index below n):
+     * one invariant per implementation class (imp_inv: the arm list is duplicate free; every per-arm dictionary
+       of the implementation and of every learning-policy object it holds - template, per-cluster copies, tree
+       policy - has exactly the current arms as keys, in arm-list order), established by the constructors and
+       preserved by EVERY facade call, accepted, rejected or failing half-way; hence true after every history;
+     * in every state satisfying the invariant, whatever predict / predict_expectations return ranges over
+       exactly the current arms: every prediction is a member of the arm list, every expectation dictionary has
+       the arm list as its key list (all_query_outputs_range);
+     * the arm-list clauses (added arm present immediately and last, removed arm gone, rejected calls keep the
+       list);
+     * shape (one result for one row / no contexts, a list of m results for m > 1 rows, in row order) for
+       context-free, linear and TreeBandit bandits unconditionally, and for Radius/KNearest/LSH and Clusters
+       under the stated conditions on the oracles the model takes from the run (the job partition covers the
+       rows; k-means assigns every row to an existing cluster).
+    The theorems named ..._context_free / ..._linear carry the strongest (shape included) statements. *)
+From Coq Require Import List ZArith Bool Arith QArith Qcanon Permutation.
+From MW Require Import Num Assoc AssocFacts Rng Par CF CFInv CFClean CFForget CFSpec Matrix Lin Warm WarmInv Nbr NbrFacts NbrIndep LshFacts Clu Tree CellFacts Mab FacadeCF FacadeArms MoreFacts NumLaws CFAlg Sim Extra QcInst OrderFacts ExpIrrel LinInv FacadeLin LpInv NbrInv CluTreeInv FacadeAll ToyFacts.
 Import ListNotations.
 
-Theorem C08_invariant_on_every_history_partial :
+Theorem C08_invariant_on_every_history :
   forall (R A G : Type) (N : Num R) (aeqb : A -> A -> bool) (RG : RngOps R G),
   (forall x y : A, aeqb x y = true <-> x = y) ->
-  forall (ops : list op) (m : mab), rng_lengths_ok RG -> is_cf m -> mab_inv N m ->
-  is_cf (state_after N aeqb RG m ops) /\ mab_inv N (state_after N aeqb RG m ops).
+  forall (ops : list (@op R A)) (m : (@mab R A G)),
+  rng_lengths_ok RG -> imp_inv (m_imp m) -> imp_inv (m_imp (state_after N aeqb RG m ops)).
+Proof. exact @run_preserves_imp_inv. Qed.
+Print Assumptions C08_invariant_on_every_history.
+
+Theorem C08_every_call_preserves_the_invariant :
+  forall (R A G : Type) (N : Num R) (aeqb : A -> A -> bool) (RG : RngOps R G),
+  (forall x y : A, aeqb x y = true <-> x = y) ->
+  forall (m : (@mab R A G)) (o : (@op R A)),
+  rng_lengths_ok RG -> imp_inv (m_imp m) -> imp_inv (m_imp (fst (step N aeqb RG m o))).
+Proof. exact @step_preserves_imp_inv. Qed.
+Print Assumptions C08_every_call_preserves_the_invariant.
+
+Theorem C08_arm_list_duplicate_free_on_every_history :
+  forall (R A G : Type) (N : Num R) (aeqb : A -> A -> bool) (RG : RngOps R G),
+  (forall x y : A, aeqb x y = true <-> x = y) ->
+  forall (ops : list (@op R A)) (m : (@mab R A G)),
+  rng_lengths_ok RG -> imp_inv (m_imp m) -> NoDup (m_arms (state_after N aeqb RG m ops)).
+Proof. exact @arms_nodup_on_every_history. Qed.
+Print Assumptions C08_arm_list_duplicate_free_on_every_history.
+
+Theorem C08_answers_range_over_current_arms :
+  forall (R A G : Type) (N : Num R) (aeqb : A -> A -> bool) (RG : RngOps R G),
+  (forall x y : A, aeqb x y = true <-> x = y) ->
+  forall (m : (@mab R A G)) (cx : option (@ctxs R)) (orc : (@oracle R A)),
+  rng_lengths_ok RG ->
+  rng_index_ok RG ->
+  imp_inv (m_imp m) ->
+  out_range (m_arms m) (snd (step N aeqb RG m (Predict cx orc))) /\
+  out_range (m_arms m) (snd (step N aeqb RG m (PredictExp cx orc))).
+Proof. exact @all_query_outputs_range. Qed.
+Print Assumptions C08_answers_range_over_current_arms.
+
+Theorem C08_invariant_on_every_history_context_free :
+  forall (R A G : Type) (N : Num R) (aeqb : A -> A -> bool) (RG : RngOps R G),
+  (forall x y : A, aeqb x y = true <-> x = y) ->
+  forall (ops : list (@op R A)) (m : (@mab R A G)),
+  rng_lengths_ok RG ->
+  is_cf m ->
+  mab_inv N m -> is_cf (state_after N aeqb RG m ops) /\ mab_inv N (state_after N aeqb RG m ops).
 Proof. exact @run_preserves_inv. Qed.
-Print Assumptions C08_invariant_on_every_history_partial.
+Print Assumptions C08_invariant_on_every_history_context_free.
 
 Theorem C08_constructor_establishes_invariant :
-  forall (R A G : Type) (N : Num R) (k : cfkind) (hp : R) (bz : option (A -> R -> R)) (arms : list A) (g : G),
+  forall (R A G : Type) (N : Num R) (k : cfkind) (hp : R) (bz : option (A -> R -> R)) 
+    (arms : list A) (g : G),
   NoDup arms -> mab_inv N {| m_imp := ICf (cf_init N k hp bz arms); m_fitted := false; m_rng := g |}.
 Proof. exact @init_inv. Qed.
 Print Assumptions C08_constructor_establishes_invariant.
 
-Theorem C08_query_results_range_over_current_arms_partial :
-  forall (R A G : Type) (N : Num R) (aeqb : A -> A -> bool) (RG : RngOps R G) (m : mab)
-         (cx : option (list (list R))) (orc : oracle),
-  rng_lengths_ok RG -> is_cf m -> mab_inv N m ->
+Theorem C08_constructor_establishes_invariant_linear :
+  forall (R A G : Type) (N : Num R) (k : regkind) (alpha eps l2 : R) (sc kf : bool) 
+    (arms : list A) (g : G),
+  NoDup arms ->
+  lin_mab_inv {| m_imp := ILin (lin_init N k alpha eps l2 sc kf arms); m_fitted := false; m_rng := g |}.
+Proof. exact @lin_init_inv. Qed.
+Print Assumptions C08_constructor_establishes_invariant_linear.
+
+Theorem C08_constructor_establishes_invariant_neighbours :
+  forall (R A G : Type) (k : nkind) (m : metric) (p : option (list R)) (kf : bool) 
+    (arms : list A) (l : (@lp R A G)),
+  NoDup arms -> lp_ok l -> lp_arms l = arms -> nbr_inv (nbr_init k m p kf arms l).
+Proof. exact @nbr_init_inv. Qed.
+Print Assumptions C08_constructor_establishes_invariant_neighbours.
+
+Theorem C08_constructor_establishes_invariant_clusters :
+  forall (R A G : Type) (n : nat) (arms : list A) (l : (@lp R A G)),
+  NoDup arms -> lp_ok l -> lp_arms l = arms -> clu_inv (clu_init n arms l).
+Proof. exact @clu_init_inv. Qed.
+Print Assumptions C08_constructor_establishes_invariant_clusters.
+
+Theorem C08_constructor_establishes_invariant_tree :
+  forall (R A : Type) (N : Num R) (kf1 kf2 : bool) (arms : list A) (l : (@cf R A)),
+  NoDup arms -> keys_ok l -> c_arms l = arms -> tree_inv (tree_init N kf1 kf2 arms l).
+Proof. exact @tree_init_inv. Qed.
+Print Assumptions C08_constructor_establishes_invariant_tree.
+
+Theorem C08_query_results_shape_and_range_context_free :
+  forall (R A G : Type) (N : Num R) (aeqb : A -> A -> bool) (RG : RngOps R G) 
+    (m : (@mab R A G)) (cx : option (list (list R))) (orc : (@oracle R A)),
+  rng_lengths_ok RG ->
+  is_cf m ->
+  mab_inv N m ->
   out_wf (m_arms m) (ctx_len cx) (snd (step N aeqb RG m (Predict cx orc))) /\
   out_wf (m_arms m) (ctx_len cx) (snd (step N aeqb RG m (PredictExp cx orc))) /\
   m_arms (fst (step N aeqb RG m (Predict cx orc))) = m_arms m /\
   m_arms (fst (step N aeqb RG m (PredictExp cx orc))) = m_arms m.
 Proof. exact @query_outputs_wf. Qed.
-Print Assumptions C08_query_results_range_over_current_arms_partial.
+Print Assumptions C08_query_results_shape_and_range_context_free.
+
+Theorem C08_query_results_shape_and_range_linear :
+  forall (R A G : Type) (N : Num R) (aeqb : A -> A -> bool) (RG : RngOps R G),
+  (forall x y : A, aeqb x y = true <-> x = y) ->
+  forall (m : (@mab R A G)) (cx : list (list R)) (orc : (@oracle R A)),
+  rng_lengths_ok RG ->
+  lin_mab_inv m ->
+  out_wf (m_arms m) (Some (length cx)) (snd (step N aeqb RG m (Predict (Some cx) orc))) /\
+  out_wf (m_arms m) (Some (length cx)) (snd (step N aeqb RG m (PredictExp (Some cx) orc))) /\
+  m_arms (fst (step N aeqb RG m (Predict (Some cx) orc))) = m_arms m /\
+  m_arms (fst (step N aeqb RG m (PredictExp (Some cx) orc))) = m_arms m.
+Proof. exact @lin_query_outputs_wf. Qed.
+Print Assumptions C08_query_results_shape_and_range_linear.
+
+Theorem C08_query_results_shape_and_range_tree :
+  forall (R A G : Type) (N : Num R) (aeqb : A -> A -> bool) (RG : RngOps R G),
+  (forall x y : A, aeqb x y = true <-> x = y) ->
+  forall (s : (@tree R A)) (g : G) (leaf : A -> list R -> nat) (cx : (@mat R)) (p : bool),
+  rng_index_ok RG ->
+  tree_inv s ->
+  Forall (res_wf (t_arms s) p) (fst (tree_predict N aeqb RG s g leaf cx p)) /\
+  ((forall (g0 : G) (high : Z) (size : nat), length (fst (draw_z RG g0 (RqRandint high size))) = size) ->
+   length (fst (tree_predict N aeqb RG s g leaf cx p)) = length cx).
+Proof. exact @tree_predict_wf. Qed.
+Print Assumptions C08_query_results_shape_and_range_tree.
+
+Theorem C08_query_results_shape_and_range_neighbours :
+  forall (R A G : Type) (N : Num R) (aeqb : A -> A -> bool) (RG : RngOps R G),
+  (forall x y : A, aeqb x y = true <-> x = y) ->
+  forall (s : (@nbr R A G)) (g : G) (cx : (@mat R)) (orcs : list (list nat)) (sizes : list nat) 
+    (p : bool) (res : list (option A + list (A * option R))),
+  rng_lengths_ok RG ->
+  rng_index_ok RG ->
+  nbr_inv s ->
+  fst (nbr_predict N aeqb RG s g cx orcs sizes p) = Some res ->
+  Forall (res_wf (n_arms s) p) res /\
+  ((forall (g0 : G) (high : Z) (size : nat), length (fst (draw_z RG g0 (RqRandint high size))) = size) ->
+   sum_list sizes = length cx -> length res = length cx).
+Proof. exact @nbr_predict_wf. Qed.
+Print Assumptions C08_query_results_shape_and_range_neighbours.
+
+Theorem C08_query_results_shape_clusters :
+  forall (R A G : Type) (N : Num R) (aeqb : A -> A -> bool) (RG : RngOps R G),
+  (forall x y : A, aeqb x y = true <-> x = y) ->
+  forall (lps : list (@lp R A G)) (arms : list A) (p : bool),
+  rng_lengths_ok RG ->
+  lps_ok arms lps ->
+  forall (sizes : list nat) (seeds : list Z) (cx : (@mat R)) (assign : list nat),
+  length seeds = length cx ->
+  length assign = length cx ->
+  Forall (fun c : nat => (c < length lps)%nat) assign ->
+  sum_list sizes = length cx ->
+  length
+    (flat_map (fun '(sd, rows, asg) => clu_rows N aeqb RG lps sd rows asg p)
+       (combine (combine (chunks sizes seeds) (chunks sizes cx)) (chunks sizes assign))) = 
+  length cx.
+Proof. exact @clu_chunks_length. Qed.
+Print Assumptions C08_query_results_shape_clusters.
 
 Theorem C08_added_arm_present_immediately :
   forall (R A G : Type) (N : Num R) (aeqb : A -> A -> bool) (RG : RngOps R G),
   (forall x y : A, aeqb x y = true <-> x = y) ->
-  forall (m : mab) (a : A) (bz : option (A -> R -> R)),
+  forall (m : (@mab R A G)) (a : A) (bz : option (A -> R -> R)),
   snd (step N aeqb RG m (AddArm a bz)) = ODone ->
   ~ In a (m_arms m) /\ m_arms (fst (step N aeqb RG m (AddArm a bz))) = m_arms m ++ [a].
 Proof. exact @add_arm_arms. Qed.
@@ -55,8 +191,9 @@ Print Assumptions C08_added_arm_present_immediately.
 Theorem C08_removed_arm_never_listed :
   forall (R A G : Type) (N : Num R) (aeqb : A -> A -> bool) (RG : RngOps R G),
   (forall x y : A, aeqb x y = true <-> x = y) ->
-  forall (m : mab) (a : A), NoDup (m_arms m) -> snd (step N aeqb RG m (RemoveArm a)) = ODone ->
-  ~ In a (m_arms (fst (step N aeqb RG m (RemoveArm a)))).
+  forall (m : (@mab R A G)) (a : A),
+  NoDup (m_arms m) ->
+  snd (step N aeqb RG m (RemoveArm a)) = ODone -> ~ In a (m_arms (fst (step N aeqb RG m (RemoveArm a)))).
 Proof. exact @removed_arm_gone. Qed.
 Print Assumptions C08_removed_arm_never_listed.
 
@@ -75,3 +212,25 @@ Proof.
   split; [exact toy_rng_lengths_ok|]. split; [eexists; reflexivity|].
   split; [apply init_inv; repeat constructor; simpl; intuition discriminate | vm_compute; reflexivity].
 Qed.
+
+(* non-vacuity for a contextual bandit: KNearest(k=2) over a LinGreedy policy on exact rationals; the toy generator
+   meets both generator hypotheses; after fit / add_arm / partial_fit a two-row query returns two arms of the list *)
+Definition qz (z : Z) : Qc := Q2Qc (inject_Z z).
+Definition ex_lin : @lin Qc Z nat := lin_init QcNum RRidge 1%Qc 0%Qc 1%Qc false false [3; 1; 2]%Z.
+Definition ex_n0 : @mab Qc Z nat :=
+  {| m_imp := INbr (nbr_init (NKNearest 2) Cityblock None false [3; 1; 2]%Z (LLin ex_lin)); m_fitted := false; m_rng := 0%nat |}.
+Definition ex_norc : @oracle Qc Z := mkOracle [[0; 1]; [1; 2]]%nat [] [] (fun _ _ => 0%nat) [2%nat].
+Definition ex_nops : list (@op Qc Z) :=
+  [Fit [3; 1; 1]%Z [1%Qc; 0%Qc; 1%Qc] (Some [[qz 1]; [qz 2]; [qz 3]]) ex_norc; AddArm 7%Z None;
+   PartialFit [7]%Z [1%Qc] (Some [[qz 4]]) ex_norc].
+Example C08_contextual_hypotheses_satisfiable :
+  rng_lengths_ok ToyRng /\ rng_index_ok ToyRng /\ imp_inv (m_imp ex_n0) /\
+  snd (step QcNum Z.eqb ToyRng (state_after QcNum Z.eqb ToyRng ex_n0 ex_nops) (Predict (Some [[qz 1]; [qz 2]]) ex_norc))
+  = OArms [Some 3%Z; Some 1%Z].
+Proof.
+  split; [exact toy_rng_lengths_ok|]. split; [exact toy_rng_index_ok|]. split.
+  - simpl. apply nbr_init_inv; [repeat constructor; simpl; intuition discriminate | | reflexivity].
+    simpl. apply lin_keys_ok_init. repeat constructor; simpl; intuition discriminate.
+  - vm_compute. reflexivity.
+Qed.
+
